@@ -148,11 +148,11 @@ def _plan(tier):
     P.append(("trial", dict(driver="GrandCanonical", table="d", n=2, check=False, calc="neighbourlist"), R))
     P.append(("trial", dict(driver="GrandCanonical", table="e", n=2, check=True, calc="caching"), R + ("failed",)))
     P.append(("trial", dict(driver="Canonical", table="d2", n=2, check=True, calc="caching"), R + ("failed",)))
+    P.append(("trial", dict(driver="HamiltonianCanonical", table="h", n=1, check=True, calc="caching"), R + ("failed",)))
     if not q:
         P.append(("trial", dict(driver="GrandCanonical", table="e", n=3, check=False, calc="caching", molecular=True), R))
         P.append(("trial", dict(driver="GrandCanonical", table="e2", n=2, check=False, calc="caching", coin=True), R))
         P.append(("trial", dict(driver="Canonical", table="d", n=3, check=True, calc="neighbourlist"), R + ("failed",)))
-        P.append(("trial", dict(driver="HamiltonianCanonical", table="h", n=1, check=True, calc="caching"), R + ("failed",)))
         P.append(("trial", dict(driver="Isotension", table="cell", n=2, check=True, calc="neighbourlist"), R + ("failed",)))
     P.append(("trial", dict(driver="Canonical", table="d", n=2, check=False, calc="caching"), (), "one-evaluation-per-judged-trial"))
     return P
